@@ -229,6 +229,48 @@ def extra_cases(ck):
                                 expected=kexp, observed=repr(kgot), driver='loop')
                     break
 
+    # (d) an interior parameter where the derivative vanishes without changing direction (B' = c (t - t0)^2): the tangent is that direction, on both sides and at t0
+    for z, t0 in (([0j, 8 + 4j, 0j, 8 + 4j], 0.5), ([1 + 1j, 3 - 1j, 2 + 0j, 3 - 1j], None)):
+        seg = sp.CubicBezier(*z)
+        if t0 is None:
+            continue
+        dirn = (seg.point(t0 + 0.1) - seg.point(t0 - 0.1))
+        dirn /= abs(dirn)
+        for mapname, g, tm in (('as given', lambda s_: s_, lambda u: u), ('translated', lambda s_: s_.translated(3 - 2j), lambda u: u), ('rotated(90)', lambda s_: s_.rotated(90, origin=0j), lambda u: 1j * u),
+                               ('scaled(-1)', lambda s_: s_.scaled(-1), lambda u: -u), ('reversed', lambda s_: s_.reversed(), lambda u: -u)):
+            img = g(seg)
+            for t in (t0, t0 - 0.01, t0 + 0.01):
+                ck.case(fp=('interior-stationary', str(z), mapname, t), nontrivial=True)
+                try:
+                    got = img.unit_tangent(1 - t if mapname == 'reversed' else t)
+                    nrm = img.normal(1 - t if mapname == 'reversed' else t)
+                except Exception as e:      # noqa
+                    got, nrm = e, None
+                if isinstance(got, Exception) or not (abs(got - tm(dirn)) <= 1e-6) or not (abs(nrm + 1j * got) <= 1e-9):
+                    ck.disagree(key='CubicBezier.unit_tangent/interior-stationary-point', site=site + ':bezier_unit_tangent', what='%r %s: unit_tangent(%r) = %r, the curve runs along %r there' % (seg, mapname, t, got, tm(dirn)),
+                                case={'z': [str(w) for w in z], 'map': mapname, 't': t}, expected=str(tm(dirn)), observed=repr(got), driver='stationary')
+                    break
+    # (e) a path whose joint is open by a rounding error, a member ending in a repeated control point: transforming the *path* keeps the end tangent of that member
+    for gap in (1e-13, 3e-14, 0.0):
+        a_ = sp.CubicBezier(0j, 2 + 3j, 5 + 1j, 5 + 1j)            # control2 == end: the end tangent is the direction control1 -> end
+        b_ = sp.Line(5 + 1j + gap, 9 + 0j)
+        q_ = sp.QuadraticBezier(-3 + 0j, 0j, 0j + gap * 1j)        # control == end (up to the gap)
+        pth = sp.Path(sp.Line(-6 - 2j, -3 + 0j), sp.QuadraticBezier(-3 + 0j, 0j, 0j), a_, b_)
+        for mapname, g, tm in (('translated', lambda s_: s_.translated(0.1 + 0.7j), lambda u: u), ('rotated(30)', lambda s_: s_.rotated(30, origin=1 + 1j), lambda u: cmath.exp(1j * math.pi / 6) * u),
+                               ('rotated(-90)', lambda s_: s_.rotated(-90, origin=0j), lambda u: -1j * u)):
+            # (scaled() goes through the power basis and returns coincident control points an ulp apart: end tangents of such results are rounding noise, 9.4)
+            ck.case(fp=('hairline-joint-tangent', gap, mapname), nontrivial=True)
+            try:
+                img = g(pth)
+                got = [img[2].unit_tangent(1), img[1].unit_tangent(1), img[2].unit_tangent(0)]
+                exp = [tm(pth[2].unit_tangent(1)), tm(pth[1].unit_tangent(1)), tm(pth[2].unit_tangent(0))]
+                ok = all(abs(g_ - e_) <= 1e-6 for g_, e_ in zip(got, exp))
+            except Exception as e:      # noqa
+                ok, got, exp = False, repr(e), None
+            if not ok:
+                ck.disagree(key='Path-transform/end-tangent-of-a-member-with-a-repeated-control-point', site=site + ':transform_segments_together', what='joint open by %g, path %s: end tangents %r, expected %r' % (gap, mapname, got, exp),
+                            case={'gap': gap, 'map': mapname}, expected=repr(exp), observed=repr(got), driver='stationary')
+
 
 def run(ck):
     rnd = random.Random(ck.seed)
